@@ -277,6 +277,10 @@ func mergeCustomObjectFields(aTypes, bTypes map[string]*ast.Definition, a, b *as
 		}
 
 		rf := result.ForName(f.Name)
+		// a field declared by both sides must have one signature
+		if rf != nil && !isSameSignature(rf, f) {
+			return nil, fmt.Errorf("field collision: %s.%s declared with different signatures", a.Name, f.Name)
+		}
 		isOverlappinggMap[i] = rf != nil
 		result = append(result, f)
 	}
@@ -365,6 +369,32 @@ func formatSchema(schema *ast.Schema) string {
 
 func isIDField(f *ast.FieldDefinition) bool {
 	return f.Name == common.IDFieldName && len(f.Arguments) == 0 && isIDType(f.Type)
+}
+
+func valueString(v *ast.Value) string {
+	if v == nil {
+		return ""
+	}
+	return v.String()
+}
+
+// isSubArguments returns true if every argument of a is an argument of b (name, type, default value)
+func isSubArguments(a, b ast.ArgumentDefinitionList) bool {
+	for _, aa := range a {
+		ba := b.ForName(aa.Name)
+		if ba == nil || aa.Type.String() != ba.Type.String() || valueString(aa.DefaultValue) != valueString(ba.DefaultValue) {
+			return false
+		}
+	}
+	return true
+}
+
+// isSameSignature returns true if both fields have the same type, default value and arguments
+func isSameSignature(a, b *ast.FieldDefinition) bool {
+	return a.Type.String() == b.Type.String() &&
+		valueString(a.DefaultValue) == valueString(b.DefaultValue) &&
+		isSubArguments(a.Arguments, b.Arguments) &&
+		isSubArguments(b.Arguments, a.Arguments)
 }
 
 func isImplementsNodeInterface(d *ast.Definition) bool {
